@@ -215,7 +215,7 @@ Proof.
   intros W Hi Hij Hj Bi Bj Hc.
   destruct (hd_facts hs i W Hi ltac:(lia)) as (Vs & Is & Bs & Rs).
   destruct (hd_facts hs j W ltac:(lia) Hj) as (Vt & It & Bt & Rt).
-  unfold verify_dual_proof_v2, gen_dual_proof_v2. cbn [d2_src d2_tgt d2_incl d2_cons].
+  unfold verify_dual_proof_v2, verify_dual_proof_v2_gen, gen_dual_proof_v2. cbn [d2_src d2_tgt d2_incl d2_cons].
   set (sh := hd_at hs i) in *. set (th := hd_at hs j) in *.
   rewrite Is, It, Bi, Bj, !N.eqb_refl. cbn [negb orb].
   destruct (N.eqb_spec i 0); [lia|]. destruct (N.ltb_spec j i); [lia|]. cbn [orb].
